@@ -65,7 +65,7 @@ func propVector(t *rapid.T, f inst.Field) {
 	test := "C01_Vector/" + f.Name()
 	key := fmt.Sprintf("%s Vector.%s n=%d a0=%v b0=%v", f.Name(), op, n, first(av), first(bv))
 	cls := []string{op, lenClass(n)}
-	res := f.NewVec(n + 1).Slice(0, n)
+	res := f.NewVec(n+1).Slice(0, n)
 	check := func(want func(i int) *big.Int) {
 		for i := 0; i < n; i++ {
 			checkVal(t, f, fmt.Sprintf("Vector.%s[%d/%d]", op, i, n), res.At(i), want(i))
@@ -142,7 +142,6 @@ func TestC01_Vector(t *testing.T) {
 		rapid.Check(t, func(t *rapid.T) { propVector(t, f) })
 	})
 }
-
 
 // TestC01_Regress re-executes, without rapid, the shrunk failures found so far (see
 // /verif/known_findings.json, status "fixed").
